@@ -27,12 +27,13 @@ type Scope struct {
 	EmptyLit bool // the empty string literal '' (matches without consuming)
 	MultiByteItems bool // string items of more than one byte in `in` lists (order becomes observable)
 	NoNullableLoopBody bool
+	BigCounts bool // now and then a loop count of 3..12 instead of 0..4
 }
 
 var DefaultScope = Scope{
 	Alpha: "ab", MaxDepth: 3, MaxItems: 3,
 	Captures: true, BackRefs: true, Subs: true, Globals: true, Preds: true,
-	Anchors: true, WordAnch: true, Classes: true, Lists: true, Lazy: true, Caseless: true, NotLit: true, MultiByteItems: true, EmptyLit: true,
+	Anchors: true, WordAnch: true, Classes: true, Lists: true, Lazy: true, Caseless: true, NotLit: true, MultiByteItems: true, EmptyLit: true, BigCounts: true,
 }
 
 // PG is the state of one program generation.
@@ -208,6 +209,25 @@ func (g *PG) loopOf(body Node) Loop {
 		l.Min, l.Max, l.Form = n, n, "exactly"
 	case 6:
 		l.Min, l.Max, l.Form = 1, -1, "atleast"
+	}
+	if g.Sc.BigCounts && r.Chance(1, 12) {
+		k := 3 + r.Intn(4)
+		if r.Chance(1, 3) {
+			k = 8 + r.Intn(5)
+		}
+		if r.Chance(1, 3) {
+			l.Zeros = 1 + r.Intn(2)
+		}
+		switch l.Form {
+		case "atleast":
+			l.Min = k
+		case "atmost":
+			l.Max = k
+		case "between":
+			l.Min, l.Max = k-2, k+r.Intn(3)
+		case "exactly":
+			l.Min, l.Max = k, k
+		}
 	}
 	if g.Sc.Lazy && l.Form != "exactly" && r.Chance(1, 3) {
 		l.Lazy = true
